@@ -2,6 +2,7 @@
 the current working tree into Lean (`Generated/C03Ladder.lean`) on every run; `GenProps/C03Ladder.lean` proves the
 translation equal to the hand-written `ladder` the C03 theorems are about, for every fuel, direction and pair of
 operands.  (harness/py2lean.py is the translator; this file is the C03 vocabulary.)"""
+import ast
 import os
 from . import py2lean
 
@@ -12,6 +13,26 @@ N_OBLIGATIONS = 2
 FAMILY = ["Homogeneous", "Affine", "Similarity", "Rotation", "Translation", "UniformScale", "NonUniformScale",
           "AlignmentAffine", "AlignmentSimilarity", "AlignmentRotation", "AlignmentTranslation",
           "AlignmentUniformScale"]
+
+
+def _has_rule(tr):
+    """does the vocabulary of the translator have a word for this call? (then py2lean_norm does not inline it)"""
+    return lambda call: any(py2lean.match(r[0], call, {}) for r in tr.r.expr)
+
+
+class NormTranslator(py2lean.Translator):
+    """py2lean.Translator on the NORMALISED source (harness/py2lean_norm.py): module-level helper functions the
+    vocabulary has no word for are inlined at their call sites, loops over literal tuples unrolled, keyword arguments
+    sorted — a tidy-up of the Python that extracts or merges helpers leaves the translated term (provably) the same"""
+
+    def function(self, fn, arg_names, ind=2):
+        from . import py2lean_norm
+        node = py2lean_norm.normalised(fn, _has_rule(self))
+        params = [a.arg for a in node.args.args]
+        missing = [p for p in params if p not in arg_names]
+        if missing or node.args.vararg or node.args.kwarg or node.args.kwonlyargs:
+            raise py2lean.Untranslatable("signature of %s changed: %s" % (node.name, ast.unparse(node.args)))
+        return self.block(list(node.body), dict(arg_names), ind)
 
 
 def rules(direction):
@@ -41,7 +62,7 @@ def translate():
     try:
         bodies = {}
         for direction in ("before", "after"):
-            tr = py2lean.Translator(rules(direction))
+            tr = NormTranslator(rules(direction))
             fn = getattr(Homogeneous, "_compose_" + direction)
             bodies[direction] = tr.function(fn, {"self": "s", "t": "t"}, ind=3)
     except py2lean.Untranslatable as e:
@@ -142,7 +163,8 @@ class EntryTranslator(py2lean.Translator):
 
     def function(self, fn, arg_names, ind=2):
         """as py2lean.Translator.function, but a `**kwargs` parameter the body never mentions is accepted"""
-        node, src = py2lean.source_ast(fn)
+        from . import py2lean_norm
+        node = py2lean_norm.normalised(fn, _has_rule(self))
         params = [a.arg for a in node.args.args]
         missing = [p for p in params if p not in arg_names]
         kw = node.args.kwarg.arg if node.args.kwarg else None
@@ -372,10 +394,23 @@ def entry_text():
                  "  [(.Homogeneous, onFam (genHomogInplace mt dir)), (.TransformChain, onChain (genChainInplace dir))]\n")
 
     # ---- 3b. TransformChain._apply: `g m` stands for the `_apply` of the member with reference m ----
-    capply_rules = ERules(expr=[("$t._apply($a)", "g {t} {a}"), ("$s.transforms", "{s}")], ret="{e}")
-    emit("def genChainApply (g : Nat → Pt → Option Pt) (self : List Nat) (x : Pt) : Option Pt", "none",
-         lambda: " :=\n" + EntryTranslator(capply_rules).function(TransformChain.__dict__["_apply"],
-                                                                  {"self": "self", "x": "x"}, ind=1))
+    #      (py2lean2: `functools.reduce` with a lambda and an explicit `for` loop are the same left fold over the
+    #      members; the running point is `Option Pt`: a member that cannot be applied ends the application)
+    def capply():
+        from . import py2lean2 as P2x
+        r = P2x.Rules2M(expr=[("$t._apply($a)", "(({a}).bind (g {t}))"), ("$s.transforms", "{s}"),
+                              ("reduce($f, $xs, $init)", "(List.foldl {f} {init} {xs})")], ret="{e}", raise_=None)
+
+        class T(P2x.Translator2M):
+            def function(self, fn, arg_names, ind=2, allow_unused=()):
+                from . import py2lean_norm
+                node = py2lean_norm.normalised(fn, _has_rule(self))
+                params = [a.arg for a in node.args.args]
+                if [p for p in params if p not in arg_names] or node.args.vararg or node.args.kwonlyargs:
+                    raise py2lean.Untranslatable("signature of %s changed: %s" % (node.name, ast.unparse(node.args)))
+                return self.block(list(node.body), dict(arg_names), ind, self.top_ctx())
+        return " :=\n" + T(r).function(TransformChain.__dict__["_apply"], {"self": "self", "x": "(some x)"}, ind=1)
+    emit("def genChainApply (g : Nat → Pt → Option Pt) (self : List Nat) (x : Pt) : Option Pt", "none", capply)
 
     EXC = {"ValueError": ".error .rejected", "NotImplementedError": ".error .notImplemented"}
 
@@ -493,7 +528,8 @@ def entry_text():
             "   Homogeneous compose_*, _compose_*, _set_h_matrix, as_non_alignment, from_vector, Affine.decompose, Scale) on\n"
             "   every run of `./check C03`; do not edit.  The lists `…Bodies` name the translated body of each class the\n"
             "   live method table names as a supplier.  GenProps/C03Entry.lean proves the entry points equal to the model. -/\n"
-            "import MenpoModel.Core.C03Entry\nimport MenpoModel.Generated.C03Ladder\n\n"
+            "import MenpoModel.Core.C03Entry\nimport MenpoModel.Core.PyLoop\nimport MenpoModel.Generated.C03Ladder\n"
+            "set_option linter.unusedVariables false\n\n"
             "namespace MenpoModel.Generated.C03\nopen MenpoModel.C03\n\nvariable {d : Nat}\n\n"
             + "\n".join(parts) + "\nend MenpoModel.Generated.C03\n")
     return text, failed
@@ -533,12 +569,11 @@ class SrcTranslator(P2.Translator2M):
     written in sorted order)."""
 
     def function(self, fn, arg_names, ind=2, allow_unused=()):
-        node, _src = P2.source_ast(fn)
+        from . import py2lean_norm
+        node = py2lean_norm.normalised(fn, _has_rule(self))
         for n in ast.walk(node):
-            if isinstance(n, ast.Call):
-                if any(k.arg is None for k in n.keywords):
-                    raise P2.Untranslatable("call with **kwargs: `%s`" % ast.unparse(n))
-                n.keywords.sort(key=lambda k: k.arg)
+            if isinstance(n, ast.Call) and any(k.arg is None for k in n.keywords):
+                raise P2.Untranslatable("call with **kwargs: `%s`" % ast.unparse(n))
         a = node.args
         params = [x.arg for x in a.posonlyargs + a.args + a.kwonlyargs]
         if a.vararg:
